@@ -7,7 +7,8 @@ paths abort what was allocated; every remote write of the Encoder is wired to
 _remove_shareholder and a failure reaches Encoder.err; the share-holder proxy (WriteBucketProxy) hands the
 outcome of every remote write to that wiring and closes a share only after its last write succeeded;
 every write Deferred of a push stage is gathered; the set of placed shares that the UploadResults report is read
-from the surviving landlords only after the last stage was answered (DESIGN.md section 5, C06)."""
+from the surviving landlords only after the last stage was answered; the share holders and the servermap handed to
+the Encoder agree (no share number held by two trackers) (DESIGN.md section 5, C06)."""
 from sa.h import *
 
 EXPLANATION = (
@@ -44,11 +45,19 @@ EXPLANATION = (
     "after awaiting self._encoder.start() / as its success callback; every entry _encrypted_done puts into the "
     "sharemap / servermap of UploadResults lies in a loop over self._encoder.get_shares_placed(), is keyed by that "
     "share number (sharemap) resp. holds it (servermap), and names the server of self._server_trackers[<share>]. "
+    "(12) CHKUploader.set_shareholders merges the trackers' buckets into one dictionary per share number (a share two "
+    "trackers hold keeps only the later writer) while the servermap gets every tracker's server: the hand-over "
+    "encoder.set_shareholders(landlords, servermap) is reached only after a test that fails for such a duplicate - "
+    "an (in)equality between len(<mapping merged per share number>) and a count taken tracker by tracker (sum of "
+    "len(t.buckets), a counter or list filled in the tracker loop), with no merge afterwards, or a 'share not in "
+    "<merged mapping>' test passed in every round before the server is counted - and each servermap entry names "
+    "t.get_serverid() only for a share number iterated from t.buckets of the same tracker t. "
     "Undecided: the value computed by servers_of_happiness (C08), server-side deletion on abort (C22), "
     "interleavings of responses, the byte accounting of _WriteBuffer (that 'queued bytes == 0' really means "
     "everything was sent) and the offset/length preconditions of put_*/close that make the written bytes add up to a "
     "complete share, that the landlords/servermap CHKUploader.set_shareholders hands to the Encoder equal the "
-    "layout get_shareholders evaluated (an over-approximated servermap is a value-level error), which "
+    "layout get_shareholders evaluated beyond (12) (other forms of duplicate detection are reported as not modelled "
+    "or as a missing test), which "
     "configuration value (per-upload or default 'happy') ends up in the parameter tuple, that every "
     "allocate_buckets response has arrived before the final evaluation (the layout only grows afterwards; late "
     "allocations would merely leak until disconnect), proxies other than WriteBucketProxy and its subclasses, "
@@ -1810,3 +1819,282 @@ def run(ctx: Context):
                     r.require(not bad_sv, ed, ed.loc(g), "UploadResults.%s entry %s: the server named for share %s is "
                               "%s, not the server of self._server_trackers[%s] (the tracker whose bucket became that "
                               "share holder)" % (kw, src(ed, g), placed_vars[0], ", ".join(bad_sv), placed_vars[0]))
+
+    # -- 12. one writer per share: the landlords handed to the Encoder and the servermap it evaluates agree -----
+    with ctx.rule("C06.12", "R1/E3", "CHKUploader.set_shareholders: the share-holder dictionary is merged per share number "
+                  "(a later tracker silently replaces an earlier one) while the servermap counts every tracker's server, "
+                  "so encoder.set_shareholders(..) is reached only after a test that fails when two trackers hold the "
+                  "same share number; the servermap names a tracker's server only for that tracker's own buckets",
+                  expected=4) as r:
+        fn = idx.func(CHK + ".set_shareholders")
+        cfg = fn.cfg()
+        fnorm = FlowNorm(fn)
+        pm = parent_map(fn)
+        defs = def_exprs(fn)
+        ps = first_positional_params(fn)
+        if len(ps) < 3:
+            raise AnchorVanished("CHKUploader.set_shareholders(upload_trackers, already_serverids, encoder)")
+        tpar = ps[0]
+        hands = [(n, c) for n in cfg.nodes if n.kind in ("stmt", "test") for c in node_calls(n)
+                 if call_tail(c) == "set_shareholders" and isinstance(c.func, ast.Attribute)
+                 and isinstance(c.func.value, ast.Name) and c.func.value.id in ps]
+        if not hands:
+            raise AnchorVanished("encoder.set_shareholders(..) call in CHKUploader.set_shareholders")
+
+        def unwrap(e):
+            """dict(x) / x.copy() / x.keys() / set(x) / list(x) / sorted(x) -> x"""
+            while True:
+                if isinstance(e, ast.Call) and isinstance(e.func, ast.Attribute) and e.func.attr in ("copy", "keys") and not e.args:
+                    e = e.func.value
+                elif isinstance(e, ast.Call) and isinstance(e.func, ast.Name) and len(e.args) == 1 and not e.keywords \
+                        and e.func.id in ("dict", "set", "list", "sorted", "tuple", "frozenset"):
+                    e = e.args[0]
+                else:
+                    return e
+
+        def path_of(e):
+            e = unwrap(e)
+            return e.id if isinstance(e, ast.Name) else attr_path(e) if isinstance(e, ast.Attribute) else None
+
+        def bucket_owner(e, tvars):
+            """e reads <t>.buckets of a tracker variable t -> t"""
+            for l in leaves(e):
+                m_ = re.match(r"^(\w+)\.buckets(\.|$)", l)
+                if m_ and m_.group(1) in tvars:
+                    return m_.group(1)
+            return None
+        # loops over the trackers, and over the share numbers of one tracker
+        all_loops = []          # (target, iter, owner ast node)
+        for x in func_own_nodes(fn, into_lambda=True):
+            if isinstance(x, ast.For):
+                all_loops.append((x.target, x.iter, x))
+            elif isinstance(x, (ast.ListComp, ast.SetComp, ast.DictComp, ast.GeneratorExp)):
+                all_loops.extend((g.target, g.iter, x) for g in x.generators)
+        tvars = {t.id for (t, it, _) in all_loops if isinstance(t, ast.Name)
+                 and tpar in depends_on(fn, it, defs=defs) and not any(re.search(r"\.buckets(\.|$)", l) for l in leaves(it))}
+        if not tvars:
+            raise AnchorVanished("loop over %s in CHKUploader.set_shareholders" % tpar)
+        svars = {}              # share variable -> tracker variable
+        for (t, it, _) in all_loops:
+            o = bucket_owner(it, tvars)
+            if o is None:
+                continue
+            if isinstance(t, ast.Name):
+                svars[t.id] = o
+            elif isinstance(t, ast.Tuple) and t.elts and isinstance(t.elts[0], ast.Name) and "items" in {
+                    c.func.attr for c in ast.walk(it) if isinstance(c, ast.Call) and isinstance(c.func, ast.Attribute)}:
+                svars[t.elts[0].id] = o
+
+        def in_loop_of(node, var):
+            return any(var in {y.id for y in ast.walk(t) if isinstance(y, ast.Name)} for (t, it) in enclosing_loops(pm, node))
+
+        def share_owner(node, name):
+            """The tracker variable whose .buckets the innermost enclosing loop binding `name` iterates, else None."""
+            for (t, it) in enclosing_loops(pm, node):
+                if name in {y.id for y in ast.walk(t) if isinstance(y, ast.Name)}:
+                    if isinstance(t, ast.Name) or (isinstance(t, ast.Tuple) and t.elts and isinstance(t.elts[0], ast.Name)
+                                                   and t.elts[0].id == name):
+                        return bucket_owner(it, tvars)
+                    return None
+            return None
+
+        def empty_dict(e):
+            return (isinstance(e, ast.Dict) and not e.keys) or (
+                isinstance(e, ast.Call) and isinstance(e.func, ast.Name) and e.func.id == "dict" and not e.args and not e.keywords)
+        # mappings keyed by share number that start empty and are filled tracker by tracker: a share number two
+        # trackers hold is stored once (the later tracker wins)
+        merged = {}
+        for n in cfg.nodes:
+            if n.kind != "stmt":
+                continue
+            for c in node_calls(n):
+                if isinstance(c.func, ast.Attribute) and c.func.attr == "update" and len(c.args) == 1:
+                    o = bucket_owner(c.args[0], tvars)
+                    pth = path_of(c.func.value)
+                    if o and pth and in_loop_of(c, o):
+                        merged.setdefault(pth, []).append(n)
+            if isinstance(n.ast, ast.Assign):
+                for t in n.ast.targets:
+                    if isinstance(t, ast.Subscript) and isinstance(t.slice, ast.Name) and share_owner(n.ast, t.slice.id):
+                        pth = path_of(t.value)
+                        if pth:
+                            merged.setdefault(pth, []).append(n)
+        merged = {k: v for k, v in merged.items() if any(empty_dict(d) for d in defs.get(k, []))}
+
+        def collapsed(n, e):
+            e = fnorm.resolve(n, e)
+            return isinstance(e, ast.Call) and isinstance(e.func, ast.Name) and e.func.id == "len" and len(e.args) == 1 \
+                and path_of(e.args[0]) in merged
+
+        def len_of_buckets(e):
+            return isinstance(e, ast.Call) and isinstance(e.func, ast.Name) and e.func.id == "len" and len(e.args) == 1 \
+                and re.match(r"^(\w+)\.buckets$", path_of(e.args[0]) or "") and path_of(e.args[0]).split(".")[0]
+
+        def trackers_iter(it):
+            return tpar in depends_on(fn, it, defs=defs) and not any(re.search(r"\.buckets(\.|$)", l) for l in leaves(it))
+
+        def separate(n, e):
+            """e counts the buckets of every tracker one by one (a share number held twice counts twice)."""
+            e = fnorm.resolve(n, e)
+            if isinstance(e, ast.Call) and isinstance(e.func, ast.Name) and e.func.id == "sum" and len(e.args) == 1 \
+                    and isinstance(e.args[0], (ast.ListComp, ast.GeneratorExp)):
+                comp = e.args[0]
+                gs = comp.generators
+                if any(g.ifs for g in gs) or not isinstance(gs[0].target, ast.Name) or not trackers_iter(gs[0].iter):
+                    return False
+                tv = gs[0].target.id
+                if len(gs) == 1:
+                    return len_of_buckets(comp.elt) == tv
+                return len(gs) == 2 and bucket_owner(gs[1].iter, {tv}) == tv and isinstance(comp.elt, ast.Constant) \
+                    and comp.elt.value == 1
+            if isinstance(e, ast.Name) and e.id not in ps:
+                # counter: x = 0; x = x + len(t.buckets) per tracker / x = x + 1 per share
+                incs, ok = 0, True
+                for x in func_own_nodes(fn):
+                    tg = x.targets[0] if isinstance(x, ast.Assign) and len(x.targets) == 1 else \
+                        x.target if isinstance(x, ast.AugAssign) else None
+                    if not (isinstance(tg, ast.Name) and tg.id == e.id):
+                        continue
+                    v = aug_value(x) if isinstance(x, ast.AugAssign) else x.value
+                    if isinstance(v, ast.Constant) and v.value == 0:
+                        continue
+                    if isinstance(v, ast.BinOp) and isinstance(v.op, ast.Add):
+                        a, b = v.left, v.right
+                        if isinstance(b, ast.Name) and b.id == e.id:
+                            a, b = b, a
+                        if isinstance(a, ast.Name) and a.id == e.id:
+                            tv = len_of_buckets(b)
+                            if tv and tv in tvars and in_loop_of(x, tv):
+                                incs += 1
+                                continue
+                            if isinstance(b, ast.Constant) and b.value == 1 and any(share_owner(x, sv) for sv in svars):
+                                incs += 1
+                                continue
+                    ok = False
+                return ok and incs > 0
+            if isinstance(e, ast.Call) and isinstance(e.func, ast.Name) and e.func.id == "len" and len(e.args) == 1 \
+                    and isinstance(e.args[0], ast.Name) and e.args[0].id not in ps:
+                # list of all share numbers: q = []; q.extend(t.buckets) / q.append(shnum)
+                q = e.args[0].id
+                ds = defs.get(q, [])
+                if not any(isinstance(d, ast.List) and not d.elts for d in ds):
+                    return False
+                fills = 0
+                for x in func_own_nodes(fn):
+                    if isinstance(x, ast.Call) and isinstance(x.func, ast.Attribute) and path_of(x.func.value) == q \
+                            and isinstance(x.func.value, ast.Name):
+                        if x.func.attr == "extend" and len(x.args) == 1 and bucket_owner(x.args[0], tvars) \
+                                and in_loop_of(x, bucket_owner(x.args[0], tvars)):
+                            fills += 1
+                        elif x.func.attr == "append" and len(x.args) == 1 and isinstance(x.args[0], ast.Name) \
+                                and share_owner(x, x.args[0].id):
+                            fills += 1
+                        elif x.func.attr in MUTATORS:
+                            return False
+                return fills > 0 and all((isinstance(d, ast.List) and not d.elts) or bucket_owner(d, tvars)
+                                         or (isinstance(d, ast.Name) and d.id in svars) for d in ds)
+            return False
+
+        def relation(n, lab):
+            """(op, a, b) with op '==' or '<=' that holds on the edge, for an atomic comparison."""
+            if n.kind != "test" or not isinstance(lab, tuple) or not isinstance(n.ast, ast.Compare) or len(n.ast.ops) != 1:
+                return None
+            pos = lab[0] == "T"
+            a, b, op = n.ast.left, n.ast.comparators[0], n.ast.ops[0]
+            if (isinstance(op, ast.Eq) and pos) or (isinstance(op, ast.NotEq) and not pos):
+                return ("==", a, b)
+            if (isinstance(op, ast.LtE) and pos) or (isinstance(op, ast.Gt) and not pos):
+                return ("<=", a, b)
+            if (isinstance(op, ast.GtE) and pos) or (isinstance(op, ast.Lt) and not pos):
+                return ("<=", b, a)
+            if (isinstance(op, ast.NotIn) and pos) or (isinstance(op, ast.In) and not pos):
+                return ("not in", a, b)
+            return None
+
+        def total_gate(n, lab):
+            rel = relation(n, lab)
+            if rel is None or rel[0] == "not in":
+                return False
+            op, a, b = rel
+            if separate(n, a) and collapsed(n, b):
+                return True
+            return op == "==" and collapsed(n, a) and separate(n, b)
+
+        def share_gate(n, lab):
+            rel = relation(n, lab)
+            return rel is not None and rel[0] == "not in" and isinstance(rel[1], ast.Name) \
+                and bool(share_owner(rel[1], rel[1].id)) and path_of(rel[2]) in merged
+        for (hn, hc) in hands:
+            r.site(fn, hc, "hand-over to the Encoder")
+            la, ma = arg(hc, 0, "landlords"), arg(hc, 1, "servermap")
+            lp = (path_of(la) or path_of(fnorm.resolve(hn, la))) if la is not None else None
+            mp = (path_of(ma) or path_of(fnorm.resolve(hn, ma))) if ma is not None else None
+            if lp is None or mp is None:
+                raise AnalysisError("set_shareholders hands %s to the Encoder: landlords / servermap are not plain "
+                                    "variables (form not modelled)" % src(fn, hc))
+            if lp not in merged:
+                raise AnalysisError("the share holders %s handed to the Encoder are not merged from the buckets of the "
+                                    "trackers in %s (form not modelled)" % (lp, tpar))
+            for mnode in merged[lp][:1]:
+                r.site(fn, mnode.ast, "share holders merged per share number")
+            # what the servermap (the layout the Encoder judges happiness on) gets per tracker
+            accs = []
+            for n in cfg.nodes:
+                if n.kind != "stmt":
+                    continue
+                for c in node_calls(n):
+                    if isinstance(c.func, ast.Attribute) and c.func.attr in ("add", "update", "append") \
+                            and (base_path(c.func.value) == mp or (base_path(c.func.value) or "").startswith(mp + ".")) \
+                            and any(in_loop_of(c, tv) for tv in tvars):
+                        accs.append((n, c))
+            if not accs:
+                raise AnalysisError("the servermap %s handed to the Encoder is not filled in a loop over %s (form not "
+                                    "modelled)" % (mp, tpar))
+            for (n, c) in accs:
+                r.site(fn, c, "servermap entry per tracker and share")
+                rcv = c.func.value
+                key = rcv.slice if isinstance(rcv, ast.Subscript) else rcv.args[0] if (
+                    isinstance(rcv, ast.Call) and call_tail(rcv) in ("setdefault", "get") and rcv.args) else None
+                key = fnorm.resolve(n, key) if key is not None else None
+                vals = [fnorm.resolve(n, v) for a_ in c.args for v in (a_.elts if isinstance(a_, (ast.Set, ast.List, ast.Tuple)) else [a_])]
+                owners = {v.func.value.id for v in vals if isinstance(v, ast.Call) and isinstance(v.func, ast.Attribute)
+                          and v.func.attr == "get_serverid" and isinstance(v.func.value, ast.Name) and v.func.value.id in tvars}
+                if key is None or len(owners) != 1 or len(vals) != 1:
+                    raise AnalysisError("servermap entry %s: form not modelled" % src(fn, c))
+                (tv,) = tuple(owners)
+                r.require(isinstance(key, ast.Name) and share_owner(c, key.id) == tv, fn, fn.loc(c),
+                          "the servermap handed to the Encoder gets %s for share %s, which is not a share number iterated "
+                          "from %s.buckets: a server is counted for a share it holds no bucket for, so happiness is judged "
+                          "on a layout that is not being written" % (src(fn, vals[0]), src(fn, key), tv))
+            # (A) a comparison of totals before the hand-over, or (B) a membership test per share before it is counted
+            wa = find_path_avoiding(cfg, lambda m, _h=hn: m is _h, gate_edge=total_gate, kill=mutates(lp))
+            gates = [n for n in cfg.nodes if n.kind == "test" and any(
+                total_gate(n, (pol, n.ast)) or share_gate(n, (pol, n.ast)) for pol in ("T", "F"))]
+            if not wa:
+                r.site(fn, gates[0].ast if gates else None, "duplicate test (totals)")
+                continue
+            wb = None
+            for (n, c) in accs:
+                heads = [m for m in cfg.nodes if m.kind == "iter" and any(m.ast is own for (t, it, own) in all_loops
+                         if isinstance(own, ast.For) and any(isinstance(y, ast.Name) and y.id in svars for y in ast.walk(t)))
+                         and any(x is c for x in ast.walk(m.ast))]
+                if not heads:
+                    wb = wa
+                    break
+                for h in heads[-1:]:
+                    w = find_path_avoiding(cfg, lambda m, _n=n: m is _n, gate_edge=share_gate, start=h)
+                    if w:
+                        wb = w
+            if wb is None and gates:
+                r.site(fn, gates[0].ast, "duplicate test (per share)")
+                continue
+            (tn, w) = wa[0]
+            near = [n for n in cfg.nodes if n.kind == "test" and isinstance(n.ast, ast.Compare)
+                    and any(collapsed(n, x) for x in [n.ast.left] + list(n.ast.comparators))]
+            r.violation(fn, fn.loc(hc), "CHKUploader.set_shareholders reaches %s without a test that fails when two trackers "
+                        "hold the same share number%s: %s keeps one bucket writer per share number (the later tracker "
+                        "replaces the earlier one) while %s still names both servers, so the Encoder judges "
+                        "servers-of-happiness on a layout in which a share is counted on a server whose bucket is never "
+                        "written or closed, and the upload can succeed below the threshold (path: %s)" % (
+                            src(fn, hc), (" (%s compares two quantities that are both counted per share number and are "
+                                          "always equal)" % src(fn, near[0].ast)) if near else "", lp, mp, w.brief()), w)
